@@ -41,6 +41,31 @@ type ScriptCore struct {
 	Pos    int
 	Rec    string // recorder id (process-local observation channel, not part of the behaviour)
 	Cancel string // what OnCancel does: ok | err | panic
+	Pad    string // ballast: makes the serialized state (and so every cursor token) as large as wanted
+}
+
+// scriptPad builds the ballast named by a pad word: "" | "z<n>" (n compressible bytes) | "r<n>"
+// (n incompressible bytes, a fixed pseudo-random sequence).
+func scriptPad(word string) string {
+	if len(word) < 2 {
+		return ""
+	}
+	n, err := strconv.Atoi(word[1:])
+	if err != nil || n <= 0 || n > 4<<20 {
+		return ""
+	}
+	if word[0] == 'z' {
+		return strings.Repeat("a", n)
+	}
+	b := make([]byte, n)
+	x := uint64(0x9E3779B97F4A7C15)
+	for i := range b {
+		x ^= x << 13
+		x ^= x >> 7
+		x ^= x << 17
+		b[i] = byte(x >> 24)
+	}
+	return string(b)
 }
 
 // The four concrete state types: exchange / producer, each with and without an OnCancel method.
@@ -421,7 +446,12 @@ func (s *ScriptPrC) OnCancel(context.Context, *vgirpc.CallContext) error { retur
 // newScriptState builds the initial state object for a stream kind ("ex"|"pr") and cancel
 // behaviour ("absent"|"ok"|"err"|"panic").
 func newScriptState(kind, cancel, prog, rec string) interface{} {
-	core := ScriptCore{Prog: prog, Rec: rec, Cancel: cancel}
+	return newScriptStatePad(kind, cancel, prog, rec, "")
+}
+
+// newScriptStatePad is newScriptState with ballast in the state (see scriptPad).
+func newScriptStatePad(kind, cancel, prog, rec, pad string) interface{} {
+	core := ScriptCore{Prog: prog, Rec: rec, Cancel: cancel, Pad: scriptPad(pad)}
 	switch {
 	case kind == "ex" && cancel == "absent":
 		return &ScriptEx{core}
